@@ -168,7 +168,9 @@ WaitingStaysAfterStop(P, O, ev) ==
              /\ Kids(O, t.sid) = Kids(P, t.sid)
 \* an acknowledged pause: the execution and its unfinished sub-executions are PAUSED
 PauseAck(P, O, ev, target) ==
-  (ev.kind = "op" /\ ev.what = "pause" /\ ev.exc = "none" /\ Has(Rng(P.wf), target) /\ By(Rng(P.wf), target).state = "RUNNING")
+  \* (a pause of an execution that is PAUSED already is acknowledged too: sub-workflows that started meanwhile - a task created
+  \*  before the first pause may start after it - are paused by it)
+  (ev.kind = "op" /\ ev.what = "pause" /\ ev.exc = "none" /\ Has(Rng(P.wf), target) /\ By(Rng(P.wf), target).state \in {"RUNNING", "PAUSED"})
      => /\ By(Rng(O.wf), target).state = "PAUSED"
         /\ \A c \in Rng(O.wf) : (c.parent # "" /\ By(Rng(O.tk), c.parent).wf = target /\ c.state \notin Final)
                => c.state = "PAUSED"
@@ -341,6 +343,9 @@ ParentMirrorsChild(D, O) ==
      LET pt == By(Rng(O.tk), c.parent) IN
        \* (a parent task the operator SKIPPED keeps that state whatever its failed child says)
        (D.tasks[pt.name].items = -1 /\ D.tasks[pt.name].retry = 0 /\ pt.state # "SKIPPED") => pt.state = c.state
+\* a task that calls sub-workflows (one, or one per item) is SUCCESS only when every execution it started has finished
+ParentSuccessNeedsChildren(O) ==
+  \A c \in Rng(O.wf) : (c.parent # "" /\ By(Rng(O.tk), c.parent).state = "SUCCESS") => c.state \in Final
 \* the execution started by a task with `workflow: X` is an execution of the definition X denotes for the caller: the
 \* workbook-relative one (<workbook>.X) when the caller lives in a workbook that has it
 CalledDefinition(D, O) ==
